@@ -415,8 +415,9 @@ func (vt *Model) il(ps int) {
 		ps = 1
 	}
 
-	if int(vt.margin.bottom-vt.cursor.row) < (ps - 1) {
-		ps = int(vt.margin.bottom - vt.cursor.row)
+	if ps > int(vt.margin.bottom-vt.cursor.row)+1 {
+		// no more than the lines from the cursor to the bottom margin
+		ps = int(vt.margin.bottom-vt.cursor.row) + 1
 	}
 
 	// move the lines first
@@ -460,8 +461,9 @@ func (vt *Model) dl(ps int) {
 		ps = 1
 	}
 
-	if int(vt.margin.bottom-vt.cursor.row) < (ps - 1) {
-		ps = int(vt.margin.bottom - vt.cursor.row)
+	if ps > int(vt.margin.bottom-vt.cursor.row)+1 {
+		// no more than the lines from the cursor to the bottom margin
+		ps = int(vt.margin.bottom-vt.cursor.row) + 1
 	}
 
 	for r := vt.cursor.row; r <= vt.margin.bottom; r += 1 {
